@@ -63,7 +63,11 @@ class Ctx:
         with open(os.path.join(self.root, "pyproject.toml"), "w") as f:
             f.write(self.raw_config if self.raw_config is not None else worlds.toml_dumps(self.cfg))
 
+    remote_sdl: Optional[str] = None
+
     def schema_files(self):
+        if self.remote_sdl is not None:
+            return []                      # the schema is served by the (simulated) remote endpoint
         sp = os.path.join(self.root, self.cfg.get("schema_path", "schema.graphql"))
         return _gql_files(sp)
 
@@ -429,7 +433,7 @@ def _classify_project(c: Ctx) -> Tuple:
         except (GraphQLSyntaxError, UnicodeDecodeError):
             return ("invalid", ("InvalidGraphqlSyntax",), os.path.basename(p))
         qtexts.append(t)
-    sdl = "\n".join(texts)
+    sdl = "\n".join(texts) if c.remote_sdl is None else c.remote_sdl
     try:
         if not sdl.strip():
             raise ValueError("empty schema")
@@ -874,10 +878,20 @@ def run_case(case, ch: Choices) -> RunResult:
     base = genrun.scratch_dir("verif-c17-")
     try:
         root = os.path.join(base, "p")
-        mat = worlds.materialize(world, root, spart, qpart, tail_seed=(None if p.get("corpus") else ch.draw("lay.tails", 2 ** 16)))
+        # the schema may come from the remote endpoint: the operations must still be judged, and rejected, before anything is
+        # created (faults on the queries of client projects only)
+        fam0 = fault_name.split(":")[0]
+        use_remote = world["strategy"] == "client" and (fam0 == "operation-validity" or fault_name.startswith("syntax:queries")) \
+            and ch.chance("src.remote_schema", 1, 3)
+        http = {"sdl": worlds.sdl_of(world), "fault": None, "content_type": "application/json"} if use_remote else None
+        if use_remote:
+            res.bump("source.schema_from_remote_endpoint")
+        mat = worlds.materialize(world, root, None if use_remote else spart, qpart,
+                                 tail_seed=(None if p.get("corpus") else ch.draw("lay.tails", 2 ** 16)),
+                                 remote_url=("http://schema.test/graphql" if use_remote else None))
         target = mat["targets"][0]
         # ---- precondition: the un-faulted world works (also yields the "previous generation")
-        r0 = genrun.run_child(root, mat["argv"], mat["targets"])
+        r0 = genrun.run_child(root, mat["argv"], mat["targets"], http=http)
         if r0.get("harness_failure"):
             raise RuntimeError("child failed: %s" % r0.get("child_stderr"))
         if r0.get("exit") != 0:
@@ -905,6 +919,8 @@ def run_case(case, ch: Choices) -> RunResult:
                     with open(target, "w") as f:
                         f.write("# user's own file at the target path\n")
         ctx = Ctx(root, world, mat, ch)
+        if use_remote:
+            ctx.remote_sdl = worlds.sdl_of(world)
         texts_before = _source_texts(root)
         out = fn(ctx)
         if out == "skip":
@@ -966,7 +982,7 @@ def run_case(case, ch: Choices) -> RunResult:
             proc_env = {"PYTHONWARNINGS": "error::DeprecationWarning"}
             res.bump("env.deprecation_warnings_as_errors")
         r = genrun.run_child(root, ctx.argv, mat["targets"], env=ctx.env, env_unset=ctx.env_unset, pre_runs=pre_runs,
-                             timeout=90 if not pre_runs else 200, proc_env=proc_env)
+                             timeout=90 if not pre_runs else 200, proc_env=proc_env, http=http)
         if r.get("harness_failure"):
             raise RuntimeError("child failed: %s" % r.get("child_stderr"))
         after = _project_snapshot(root)
